@@ -157,11 +157,15 @@ def specRun (c : CmdBuf) : List Cmd → Spec.SpecW → List (Entity × List Comp
     -- implementation did create that handle, otherwise match by values; the abstract map then checks
     -- freshness, and the next observation checks the rest
     let want := sortComps (c.rangeVals f l)
+    -- prefer the model's prediction whenever the abstract map considers that handle fresh (it may have
+    -- been despawned again by a later command of the same buffer, so it need not be in `newEs`);
+    -- otherwise fall back to a new entity with these values that the map does not know yet
+    let s0 := s.flush
+    let byValue := (newEs.find? (fun p => sortComps p.2 == want && !s0.isLive p.1)).map (·.1)
     let pick : Option Entity :=
       match guesses.head? with
-      | some g => if newEs.any (·.1 == g) || !(newEs.any (fun p => sortComps p.2 == want)) then some g else
-          (newEs.find? (fun p => sortComps p.2 == want)).map (·.1)
-      | none => (newEs.find? (fun p => sortComps p.2 == want)).map (·.1)
+      | some g => if s0.freshOk g then some g else byValue
+      | none => byValue
     match pick with
     | none => .error s!"a recorded spawn of {showComps want} produced no entity"
     | some e =>
